@@ -34,7 +34,7 @@ Comment(kind, text) == Item("comment", "", "", "none", "none", "none", kind, tex
 Filler(kind) == Item("filler", "", "", "none", "none", "none", kind, "")
 
 MsgText == "Hello"         PluralText == "Hellos"       CtxText == "greeting"
-TagTexts == {"Hello, World!", "Hello, %(you)s!"}
+TagTexts == {"Hello, World!", "Hello, %(you)s!", "Dear %(you)s,"}      \* the last one takes `you` from the data (m)
 
 \* ---- source text -------------------------------------------------------------------------
 Lit(s) == "'" \o s \o "'"
@@ -59,11 +59,11 @@ ItemLines(it) ==
   CASE it.k = "tag" ->
          LET args == (IF it.ctx = "none" THEN <<>> ELSE <<"context: " \o Opnd(it.ctx, CtxText, "cx")>>)
                      \o (IF it.count = "none" THEN <<>> ELSE <<"count: " \o CountSrc(it.count)>>)
-                     \o (IF it.left = "Hello, %(you)s!" THEN <<"you: 'Sue'">> ELSE <<>>)
+                     \o (IF it.left = "Hello, %(you)s!" THEN <<"you: 'Sue'">> ELSE IF it.left = "Dear %(you)s," THEN <<"you: m">> ELSE <<>>)
              head == "{% translate" \o (IF args = <<>> THEN "" ELSE " " \o args[1] \o (IF Len(args) > 1 THEN ", " \o args[2] ELSE "")
                                                                    \o (IF Len(args) > 2 THEN ", " \o args[3] ELSE "")) \o " %}"
-             body == IF it.left = "Hello, %(you)s!" THEN "Hello, {{ you }}!" ELSE it.left
-             pbody == IF it.left = "Hello, %(you)s!" THEN "Hello, {{ you }}s!" ELSE "Hello, Worlds!"
+             body == IF it.left = "Hello, %(you)s!" THEN "Hello, {{ you }}!" ELSE IF it.left = "Dear %(you)s," THEN "Dear {{ you }}," ELSE it.left
+             pbody == IF it.left = "Hello, %(you)s!" THEN "Hello, {{ you }}s!" ELSE IF it.left = "Dear %(you)s," THEN "Dear {{ you }}s," ELSE "Hello, Worlds!"
          IN IF it.plural = "lit" THEN <<head, "  " \o body, "{% plural %}", "  " \o pbody, "{% endtranslate %}">>
             ELSE <<head \o body \o "{% endtranslate %}">>
     [] it.k = "filter" ->
@@ -119,7 +119,7 @@ CountVal(c, n) == IF c = "var" THEN n ELSE IF c = "0" THEN 0 ELSE IF c = "1" THE
 Calls(it, n) ==
   CASE it.k = "tag" ->
          LET id == it.left
-             pid == IF it.left = "Hello, %(you)s!" THEN "Hello, %(you)ss!" ELSE "Hello, Worlds!"
+             pid == IF it.left = "Hello, %(you)s!" THEN "Hello, %(you)ss!" ELSE IF it.left = "Dear %(you)s," THEN "Dear %(you)ss," ELSE "Hello, Worlds!"
              cnt == IF it.count = "none" THEN 1 ELSE CountVal(it.count, n) IN
          \* a tag with a plural block asks for the plural forms, whatever the count (the catalog decides)
          IF it.plural = "lit"
@@ -161,7 +161,7 @@ Reportable(it) ==
 
 Message(it) ==
   LET id == IF it.k = "tag" THEN it.left ELSE MsgText
-      pid == IF it.k = "tag" THEN (IF it.left = "Hello, %(you)s!" THEN "Hello, %(you)ss!" ELSE "Hello, Worlds!") ELSE PluralText
+      pid == IF it.k = "tag" THEN (IF it.left = "Hello, %(you)s!" THEN "Hello, %(you)ss!" ELSE IF it.left = "Dear %(you)s," THEN "Dear %(you)ss," ELSE "Hello, Worlds!") ELSE PluralText
       hasp == IF it.k = "tag" THEN it.plural = "lit"
               ELSE it.f \in {"ngettext", "npgettext"} \/ (it.f = "t" /\ it.plural = "lit")
       hasc == IF it.k = "tag" THEN it.ctx = "lit"
